@@ -105,4 +105,14 @@ var plans = map[string]plan{
 			"layouts the loader rejects are C02's concern and are discarded here (counted)",
 		},
 	},
+	"C05": {
+		Quick:    []stage{enumStage(), rapidStage(4_000)},
+		Thorough: []stage{enumStage(), rapidStage(300_000), fuzzStage("FuzzC05", 180)},
+		Rule:     "cases are (location, style, explode) cells of the table accepted by Parameter.Validate x schema shape (integer, int32, number, boolean, string, enum, arrays of each primitive, flat object, object with additionalProperties, deepObject flat / nested / additionalProperties, allOf / anyOf / oneOf over same-type branches) x value x presence (present, absent required/optional, present-but-empty for query, text that is not a serialisation of the type). enum stage: every cell x shape x a fixed value list, complete; rapid stage: fresh values of each shape. Strings exclude the cell's own delimiters and empty members (RFC 6570 makes those serialisations ambiguous). Oracle: reference serialiser (internal/styleser) then decoded value = value, verdict = reference schema evaluator, absent required = ErrInvalidRequired. non-trivial = array/object with >= 2 members, negative or fractional number, string with punctuation, or a deciding constraint keyword; absent/garbage cases count as non-trivial. distinct = FNV-64a of the canonical case JSON.",
+		Assume: []string{
+			"styleser follows the OAS 3.0.x style table with RFC 6570 for label/explode=false (\".a,b\"), the reading later patch releases of the specification adopt",
+			"the decoded value is observed through the verif build-tag hook VerifDecodeStyledParameter",
+			"mixed-type oneOf/anyOf branches and untyped schemas are outside the quantifier's list of shapes",
+		},
+	},
 }
